@@ -3,6 +3,7 @@ CONSTANTS
   Bug = "none"
   Fmts <- FmtsAll
   CaseSet <- CasesSim
+  MkCase <- MCMkCase
   MaxCorrupt = 1
   CorruptPos <- CorPosSim
   CorruptVals <- ValsSim
